@@ -23,7 +23,12 @@ REPO = os.environ.get('VERIF_REPO', '/repo')
 SRC = os.path.join(REPO, 'src')
 COQ = os.path.join(VERIF, 'coq')
 OCAML = os.path.join(VERIF, 'ocaml')
-RUNNER = os.path.join(OCAML, 'model_runner')
+DEFAULT_RUNNER = 'seq'
+
+
+def runner_path(name):
+    return os.path.join(OCAML, name, 'runner')
+
 EVID = os.path.join(VERIF, 'evidence')
 REPLAYS = os.path.join(VERIF, 'replays')
 KF_FILE = os.path.join(VERIF, 'known_findings.json')
@@ -37,9 +42,9 @@ ALLOWED_AXIOMS = {
 }
 
 HYGIENE_RE = re.compile(
-    r'\b(Admitted|admit|Axiom|Axioms|Parameter|Parameters|Conjecture|Conjectures|Hypothesis\b(?!\s*:?\s*\()|'
-    r'Unset\s+Guard|bypass_check|Unset\s+Positivity|Unset\s+Universe|type-in-type|impredicative-set|'
-    r'Admit\s+Obligations|native_compute)')
+    r'\b(Admitted|admit|give_up|Axiom|Axioms|Parameter|Parameters|Conjecture|Conjectures|'
+    r'Unset\s+Guard\w*|bypass_check|Unset\s+Positivity\w*|Unset\s+Universe\w*|type-in-type|impredicative-set|'
+    r'Admit\s+Obligations|native_compute)\b')
 
 
 def pin_env():
@@ -161,12 +166,14 @@ class ModelUnavailable(Exception):
     pass
 
 
-def run_model(lines, timeout=3600):
-    """Feed case lines to the extracted-OCaml model runner, one output line per input line."""
-    if not os.path.exists(RUNNER):
-        raise ModelUnavailable('model_runner not built')
+def run_model(lines, timeout=3600, runner=DEFAULT_RUNNER):
+    """Feed case lines to an extracted-OCaml model runner, one output line per input line."""
+    exe = runner_path(runner)
+    if not os.path.exists(exe):
+        raise ModelUnavailable('model runner %s not built' % runner)
     data = '\n'.join(lines) + '\n'
-    p = subprocess.run([RUNNER], input=data, capture_output=True, text=True, timeout=timeout)
+    p = subprocess.run(['/bin/sh', '-c', 'ulimit -s unlimited 2>/dev/null; exec "%s"' % exe],
+                       input=data, capture_output=True, text=True, timeout=timeout)
     if p.returncode != 0:
         raise ModelUnavailable('model_runner exit %d: %s' % (p.returncode, p.stderr[-500:]))
     out = p.stdout.split('\n')
@@ -189,6 +196,7 @@ class BuildResult:
         self.assumptions = {}          # theorem -> 'closed' | [axioms]
         self.obligations = []          # names in Props file
         self.hygiene = []
+        self.source_changed = {}       # fingerprint group -> message (escalates the correspondence, not a failure)
         self.wall = 0.0
 
 
@@ -197,23 +205,64 @@ def _sh(cmd, cwd=None, timeout=3000):
     return p.returncode, p.stdout + p.stderr
 
 
+def strip_coq_comments(txt):
+    """remove (nested) Coq comments and string literals with a small lexer"""
+    out = []
+    i, n, depth = 0, len(txt), 0
+    while i < n:
+        two = txt[i:i + 2]
+        if two == '(*':
+            depth += 1
+            i += 2
+        elif two == '*)' and depth > 0:
+            depth -= 1
+            i += 2
+            out.append(' ')
+        elif depth > 0:
+            i += 1
+        elif txt[i] == '"':
+            j = i + 1
+            while j < n:
+                if txt[j] == '"':
+                    if txt[j + 1:j + 2] == '"':
+                        j += 2
+                        continue
+                    break
+                j += 1
+            out.append('""')
+            i = j + 1
+        else:
+            out.append(txt[i])
+            i += 1
+    return ''.join(out)
+
+
+SECTION_DECL_RE = re.compile(r'\b(Variable|Variables|Hypothesis|Hypotheses|Context)\b')
+SENTENCE_RE = re.compile(r'\b(Section|Module|End)\s+([A-Za-z_][A-Za-z0-9_\']*)\s*\.|'
+                         r'\b(Variable|Variables|Hypothesis|Hypotheses|Context)\b')
+
+
 def hygiene_scan():
+    """forbidden vernacular anywhere; Variable/Hypothesis/Context only inside a Section"""
     hits = []
     for root, _, files in os.walk(COQ):
         for fn in files:
             if not fn.endswith('.v'):
                 continue
             path = os.path.join(root, fn)
-            txt = open(path).read()
-            # strip comments (non-nested is enough for our sources; nested handled by loop)
-            prev = None
-            while prev != txt:
-                prev = txt
-                txt = re.sub(r'\(\*[^()]*?\*\)', ' ', txt, flags=re.S)
-            txt = re.sub(r'"[^"]*"', '""', txt)
+            txt = strip_coq_comments(open(path).read())
+            rel = os.path.relpath(path, COQ)
             for m in HYGIENE_RE.finditer(txt):
-                hits.append('%s: %s' % (os.path.relpath(path, COQ), m.group(0)))
-    # Variables/Hypotheses must be inside sections: checked by Print Assumptions (they would show up)
+                hits.append('%s: %s' % (rel, m.group(0)))
+            stack = []
+            for m in SENTENCE_RE.finditer(txt):
+                if m.group(1) in ('Section', 'Module'):
+                    stack.append(m.group(1))
+                elif m.group(1) == 'End':
+                    if stack:
+                        stack.pop()
+                elif 'Section' not in stack:
+                    hits.append('%s: %s outside a Section' % (rel, m.group(3)))
     return hits
 
 
@@ -253,9 +302,11 @@ def parse_assumptions(out):
     return res
 
 
-def build(prop_id, gen_sections, coq_targets, need_model=True, log=print):
+def build(prop_id, gen_sections, coq_targets, need_model=True, log=print,
+          extract_targets=('Extract/Extract.vo',), runners=(DEFAULT_RUNNER,)):
     """translate -> make Props/<id>.vo (+ deps) -> extraction -> ocaml.  Serialised by a lock."""
     import translate
+    import mkproject
     br = BuildResult()
     t0 = time.time()
     os.makedirs(os.path.join(VERIF, '.lock'), exist_ok=True)
@@ -264,9 +315,9 @@ def build(prop_id, gen_sections, coq_targets, need_model=True, log=print):
         try:
             errs = translate.run(log=lambda *a: None)
             br.translate_errors = {k: v for k, v in errs.items()}
-            bad = [s for s in gen_sections if s in errs]
-            if not os.path.exists(os.path.join(COQ, 'Makefile')):
-                _sh('coq_makefile -f _CoqProject -o Makefile', cwd=COQ)
+            bad = [s for s in gen_sections if s in errs and not s.startswith('FP_')]
+            br.source_changed = {s: errs[s] for s in gen_sections if s in errs and s.startswith('FP_')}
+            mkproject.run()
             if bad:
                 br.proof_ok = False
                 br.proof_log = 'translator failed closed for: ' + '; '.join('%s: %s' % (s, errs[s]) for s in bad)
@@ -313,19 +364,22 @@ def build(prop_id, gen_sections, coq_targets, need_model=True, log=print):
                 if len(printed) != len(answers):
                     br.proof_ok = False
                     br.proof_log += '\nPrint Assumptions answers (%d) != requests (%d) in %s' % (len(answers), len(printed), tgt)
-            if need_model:
-                rc, out = _sh('timeout 2400 make -j8 Extract/Extract.vo', cwd=COQ)
+            if need_model and runners:
+                rc, out = _sh('timeout 2400 make -j8 %s' % ' '.join(extract_targets), cwd=COQ)
                 if rc != 0:
                     br.model_ok = False
                     br.model_log = out[-3000:]
                 else:
-                    ml = os.path.join(OCAML, 'model.ml')
-                    srcs = [ml] + [os.path.join(OCAML, f) for f in os.listdir(OCAML) if f.endswith('.ml')]
-                    if (not os.path.exists(RUNNER)) or any(os.path.getmtime(s) > os.path.getmtime(RUNNER) for s in srcs):
-                        rc, out = _sh('./build.sh', cwd=OCAML)
-                        if rc != 0:
-                            br.model_ok = False
-                            br.model_log = out[-3000:]
+                    for rn in runners:
+                        rd = os.path.join(OCAML, rn)
+                        exe = runner_path(rn)
+                        srcs = [os.path.join(rd, f) for f in os.listdir(rd) if f.endswith('.ml')] + \
+                               [os.path.join(OCAML, 'common', f) for f in os.listdir(os.path.join(OCAML, 'common'))]
+                        if (not os.path.exists(exe)) or any(os.path.getmtime(s) > os.path.getmtime(exe) for s in srcs):
+                            rc, out = _sh('./build.sh %s' % rn, cwd=OCAML)
+                            if rc != 0:
+                                br.model_ok = False
+                                br.model_log = out[-3000:]
         finally:
             fcntl.flock(lk, fcntl.LOCK_UN)
     br.wall = time.time() - t0
@@ -382,6 +436,8 @@ class Ctx:
         self.evaluations = 0
         self.model_cases = 0
         self.model_available = True
+        self.runner = DEFAULT_RUNNER
+        self.escalated = False      # source of a transcribed region changed: run the deep correspondence
         self.notes = []
 
     # PRNG: every random choice derives from (seed, property, stream)
@@ -414,10 +470,10 @@ class Ctx:
     def benign_divergence(self, stream, case, detail):
         self.benign.append({'stream': stream, 'case': jsonable(case), 'detail': jsonable(detail)})
 
-    def model(self, lines):
+    def model(self, lines, runner=None):
         if not self.model_available:
             raise ModelUnavailable('model disabled')
-        out = run_model(lines)
+        out = run_model(lines, runner=runner or self.runner)
         self.model_cases += len(lines)
         return out
 
